@@ -551,8 +551,16 @@ def b_ghost(ip, st, args, kwargs):
     return st.ghost[args[0]]
 
 
+def b_is_blank(ip, st, args, kwargs):
+    """spec primitive: the string consists of white space only (what `len(s.strip()) == 0` tests)"""
+    (v,) = args
+    if isinstance(v, str):
+        return len(v.strip()) == 0
+    return mk(z3.InRe(S(v), z3.Star(char_class(WS))), 'bool')
+
+
 BUILTIN_IMPL = {
-    'ghost': b_ghost,
+    'ghost': b_ghost, 'is_blank': b_is_blank,
     'chr8': b_chr8, 'all_bytes': b_all_bytes,
     'len': b_len, 'range': b_range, 'ord': b_ord, 'chr': b_chr, 'int': b_int, 'str': b_str, 'bool': b_bool,
     'bytes': b_bytes, 'bytearray': b_bytearray, 'isinstance': b_isinstance, 'max': b_max, 'min': b_min,
@@ -581,9 +589,12 @@ def str_strip(ip, st, v, chars, side, ty):
     if cs == '':
         return v
     C = char_class(cs)
-    r = fresh('strip', ty).t
-    lead = fresh('lead', ty).t if side in ('both', 'l') else None
-    trail = fresh('trail', ty).t if side in ('both', 'r') else None
+    # r, lead, trail are *functions* of (s, side, chars): equal arguments give equal results
+    tag = '%s_%s' % (side, '_'.join('%02x' % ord(c) for c in cs))
+    F = lambda nm: z3.Function('strip_%s_%s' % (nm, tag), z3.StringSort(), z3.StringSort())
+    r = F('r')(s)
+    lead = F('lead')(s) if side in ('both', 'l') else None
+    trail = F('trail')(s) if side in ('both', 'r') else None
     parts = [p for p in (lead, r, trail) if p is not None]
     st.pc.append(s == (z3.Concat(*parts) if len(parts) > 1 else parts[0]))
     if lead is not None:
@@ -592,6 +603,8 @@ def str_strip(ip, st, v, chars, side, ty):
     if trail is not None:
         st.pc.append(z3.InRe(trail, z3.Star(C)))
         st.pc.append(z3.Not(z3.InRe(z3.SubString(r, z3.Length(r) - 1, 1), C)))
+    if side == 'both':
+        st.pc.append((z3.Length(r) == 0) == z3.InRe(s, z3.Star(C)))
     return mk(r, ty)
 
 
